@@ -16,6 +16,13 @@ def norm_s(f, n, T):
             return 'sizeof(T)'
         return str(n.get('v'))
     if k == 'DeclRefExpr':
+        sub = _temps(f).get(n['n'])
+        if sub is not None:
+            d, ops, pos, al = sub
+            here = (n.get('l', 0), n.get('c', 0))
+            # no operand of the defining expression is assigned between the definition and this use (source order)
+            if not any(lv in ops and pos < (a.get('l', 0), a.get('c', 0)) < here for lv, a, r in al):
+                return norm_s(f, d, T)       # a pure single-definition temporary stands for its defining expression
         return n['n']
     if k == 'MemberExpr':
         nm = n['n']
@@ -44,6 +51,39 @@ def norm_s(f, n, T):
     return f.s(n)
 
 
+def _temps(f):
+    """local temporaries that are nothing but a name for an expression: exactly one definition (initialiser or one assignment), a right-hand side
+    without calls / assignments / increments, and no operand of it assigned after the definition.  name -> defining expression node"""
+    t = f.__dict__.get('_wr_temps')
+    if t is not None:
+        return t
+    from .util import local_defs, assigned_lvalues
+    t = {}
+    params = {p_['n'] for p_ in f.params}
+    al = assigned_lvalues(f)
+    taken = {f.s(f.unwrap(f.N[x['kids'][0]])) for x in f.walk() if x['k'] == 'UnaryOperator' and x.get('op') == '&'}
+    for nm, ds in local_defs(f).items():
+        if nm in params or nm in taken or len(ds) != 1 or ds[0] is None:
+            continue
+        d = ds[0] if isinstance(ds[0], dict) else f.N[ds[0]]
+        if any(x['k'] in ('CallExpr', 'CompoundAssignOperator', 'ConditionalOperator') or (x['k'] == 'BinaryOperator' and x.get('op') == '=') or
+               (x['k'] == 'UnaryOperator' and x.get('op') in ('++', '--', 'post++', 'post--')) for x in f.walk(d)):
+            continue
+        if f.unwrap(d).get('k') != 'BinaryOperator' or '*' in (d.get('t') or ''):
+            continue            # plain copies and pointer aliases (psf = (SF_PRIVATE *) sndfile) keep their names
+        ops = {f.s(x) for x in f.walk(d) if x['k'] in ('DeclRefExpr', 'MemberExpr')}
+        if not ops or nm in ops:
+            continue
+        # position of the definition: operands must not be assigned after it
+        pos = (d.get('l', 0), d.get('c', 0))
+        uses = [(x.get('l', 0), x.get('c', 0)) for x in f.walk() if x['k'] == 'DeclRefExpr' and x.get('n') == nm]
+        if any(lv in ops and any(pos < (a.get('l', 0), a.get('c', 0)) < u for u in uses) for lv, a, r in al):
+            continue            # some use sees other operand values than the definition did: keep the name everywhere
+        t[nm] = (d, ops, pos, al)
+    f.__dict__['_wr_temps'] = t
+    return t
+
+
 def sheet(f, T, n=None):
     """nested fact sheet of statement n (default body)"""
     n = f.N[f.body] if n is None else (f.N[n] if isinstance(n, int) else n)
@@ -51,6 +91,17 @@ def sheet(f, T, n=None):
     if k == 'CompoundStmt':
         out = []
         for c in f.kids(n):
+            # statements extracted into a static helper of the same file still count at the place of the call: the helper's sheet goes in front
+            if c['k'] in ('IfStmt', 'CallExpr', 'BinaryOperator', 'ReturnStmt') and getattr(f, 'prog', None) is not None and not f.__dict__.get('_wr_noinline'):
+                root = f.N[c['cond']] if c['k'] == 'IfStmt' else c
+                for cc in f.calls(root=root):
+                    gs = f.prog.fns.get(cc.get('callee') or '', [])
+                    if len(gs) == 1 and gs[0].static and gs[0].file == f.file and gs[0].name != f.name and len(list(gs[0].walk())) < 400:
+                        gs[0].__dict__['_wr_noinline'] = True
+                        try:
+                            out.append(['inline', gs[0].name, sheet(gs[0], T)])
+                        finally:
+                            gs[0].__dict__['_wr_noinline'] = False
             s = sheet(f, T, c)
             if isinstance(s, list) and c['k'] == 'CompoundStmt':
                 out.extend(s)        # flatten nested compounds (macro bodies)
@@ -70,13 +121,15 @@ def sheet(f, T, n=None):
     if k == 'ReturnStmt':
         return ['return', norm_s(f, n['kids'][0], T) if n['kids'] else '']
     if k == 'DeclStmt':
-        ds = [d for d in n.get('decls', []) if 'init' in d and d['init'] >= 0]
+        ds = [d for d in n.get('decls', []) if 'init' in d and d['init'] >= 0 and d['n'] not in _temps(f)]
         return ['decl'] + ['%s = %s' % (d['n'], norm_s(f, d['init'], T)) for d in ds] if ds else None
     if k == 'NullStmt':
         return None
     if k in ('WhileStmt', 'ForStmt', 'DoStmt', 'SwitchStmt'):
         return [k, norm_s(f, n['cond'], T) if 'cond' in n else '', sheet(f, T, n['body'])]
     if 't' in n:
+        if k == 'BinaryOperator' and n.get('op') == '=' and f.unwrap(f.N[n['kids'][0]]).get('k') == 'DeclRefExpr' and f.unwrap(f.N[n['kids'][0]])['n'] in _temps(f):
+            return None          # the one assignment that defines a temporary
         return ['expr', norm_s(f, n, T)]
     return [k]
 
@@ -103,5 +156,25 @@ def guards(sh):
         if isinstance(s, list) and s and s[0] == 'if' and len(s) == 3:
             body = s[2] if isinstance(s[2], list) and s[2] and isinstance(s[2][0], list) else [s[2]]
             if body and isinstance(body[-1], list) and body[-1][0] == 'return':
-                out.append((s[1], [x[1] for x in body[:-1] if isinstance(x, list) and x[0] == 'expr'], body[-1][1]))
+                stmts = []
+                for x in body[:-1]:
+                    if isinstance(x, list) and x and x[0] == 'expr':
+                        stmts.append(x[1])
+                    elif isinstance(x, list) and len(x) == 3 and x[0] == 'if' and x[1].replace(' ', '') in ('(psf->error==SFE_NO_ERROR)', '(psf->error==0)', '!psf->error'):
+                        # `if (psf->error == SFE_NO_ERROR) psf->error = SFE_X` : an error is recorded either way
+                        inner = x[2] if isinstance(x[2], list) and x[2] and isinstance(x[2][0], list) else [x[2]]
+                        stmts += [y[1] for y in inner if isinstance(y, list) and y and y[0] == 'expr']
+                out.append((s[1], stmts, body[-1][1]))
+    # a guard that tests the result of an inlined helper: what the helper stored before it reported failure belongs to the guard
+    for i, s in enumerate(sh):
+        if isinstance(s, list) and s and s[0] == 'inline' and i + 1 < len(sh):
+            nxt = sh[i + 1]
+            if isinstance(nxt, list) and nxt and nxt[0] == 'if' and (s[1] + '(') in str(nxt[1]):
+                import json as _json
+                flat = _json.dumps(s[2])
+                for k_, (c_, st_, rv_) in enumerate(out):
+                    if c_ == nxt[1]:
+                        extra = [x for x in ('psf->error = SFE_', '(psf->error = ') if x in flat]
+                        if extra:
+                            out[k_] = (c_, st_ + ['(psf->error = SFE_* recorded inside the helper %s)' % s[1]], rv_)
     return out
